@@ -12,6 +12,8 @@
 mod canon;
 #[path = "../system/sys.rs"]
 mod sys;
+mod semantic;
+use semantic::{first_diff, semantic};
 
 use std::collections::HashMap;
 use std::io::Write;
@@ -37,78 +39,6 @@ fn fork(src: &Scratch, tag: &str) -> Scratch {
     let s = Scratch::new(tag);
     copy_dir(src.path(), s.path());
     s
-}
-
-const DROP: &[&str] = &[
-    "version", "serial", "hash", "validity", "since", "last_key_change", "revision", "revocations",
-    "expires", "this_update", "next_update", "time", "timestamp", "last_exchange", "last_success",
-    "manifest", "crl", "id", "id_cert", "session", "cmds", "tasks", "ret", "rrdp", "not_after",
-    "not_before", "user_agent", "now", "t0", "per_ca", "quiescent", "n_accepted", "next_class_name", "old_repo", "ta_signer", "ta_proxy", "marker",
-];
-
-fn erase_tokens(s: &str) -> String {
-    // K12 / S3 / H44 -> K / S / H
-    let b = s.as_bytes();
-    let mut out = String::new();
-    let mut i = 0;
-    while i < b.len() {
-        let c = b[i] as char;
-        if (c == 'K' || c == 'S' || c == 'H') && (i == 0 || !b[i - 1].is_ascii_alphanumeric())
-            && i + 1 < b.len() && b[i + 1].is_ascii_digit()
-        {
-            let mut j = i + 1;
-            while j < b.len() && b[j].is_ascii_digit() { j += 1; }
-            if j == b.len() || !b[j].is_ascii_alphanumeric() {
-                out.push(c);
-                i = j;
-                continue;
-            }
-        }
-        let ch = s[i..].chars().next().unwrap();
-        out.push(ch);
-        i += ch.len_utf8();
-    }
-    out
-}
-
-/// The observable state up to fresh keys, serial numbers, times and audit versions.
-fn semantic(v: &Value) -> Value {
-    match v {
-        Value::Object(m) => {
-            let mut out = Map::new();
-            for (k, x) in m {
-                if DROP.contains(&k.as_str()) { continue; }
-                let nk = erase_tokens(k);
-                let nv = semantic(x);
-                // two keys may collapse onto one: keep both in a list
-                match out.remove(&nk) {
-                    None => { out.insert(nk, nv); }
-                    Some(Value::Array(mut a)) if a.first().map(|f| f.get("__multi").is_some()).unwrap_or(false) => {
-                        a.push(nv); out.insert(nk, Value::Array(a));
-                    }
-                    Some(prev) => { out.insert(nk, Value::Array(vec![json!({"__multi": true}), prev, nv])); }
-                }
-            }
-            // sort collapsed lists for determinism
-            for (_, x) in out.iter_mut() {
-                if let Value::Array(a) = x {
-                    if a.first().map(|f| f.get("__multi").is_some()).unwrap_or(false) {
-                        let mut rest: Vec<Value> = a.drain(1..).collect();
-                        rest.sort_by_key(|v| v.to_string());
-                        *x = Value::Array(rest);
-                    }
-                }
-            }
-            Value::Object(out)
-        }
-        Value::Array(a) => {
-            let mut l: Vec<Value> = a.iter().map(semantic).collect();
-            l.sort_by_key(|v| v.to_string());
-            Value::Array(l)
-        }
-        Value::String(s) => Value::String(erase_tokens(s)),
-        other => other.clone(),
-    }
 }
 
 fn loads(s: &sys::Sys) -> Vec<String> {
@@ -341,28 +271,6 @@ fn fault_line(m: &mut Main, mode: &str, domain: &str, which: &str, op: &str, out
         });
         writeln!(out, "{line} => {obs}").unwrap();
         out.flush().unwrap();
-    }
-}
-
-fn first_diff(a: &Value, b: &Value, path: &str) -> String {
-    match (a, b) {
-        (Value::Object(x), Value::Object(y)) => {
-            for (k, v) in x {
-                match y.get(k) {
-                    None => return format!("{path}/{k}: missing after fault"),
-                    Some(w) if w != v => return first_diff(v, w, &format!("{path}/{k}")),
-                    _ => {}
-                }
-            }
-            for k in y.keys() { if !x.contains_key(k) { return format!("{path}/{k}: extra after fault"); } }
-            format!("{path}: ?")
-        }
-        (Value::Array(x), Value::Array(y)) => {
-            if x.len() != y.len() { return format!("{path}: length {} vs {}", x.len(), y.len()); }
-            for (i, (v, w)) in x.iter().zip(y).enumerate() { if v != w { return first_diff(v, w, &format!("{path}[{i}]")); } }
-            format!("{path}: ?")
-        }
-        _ => format!("{path}: {} vs {}", a.to_string().chars().take(80).collect::<String>(), b.to_string().chars().take(80).collect::<String>()),
     }
 }
 
